@@ -42,6 +42,7 @@ type visit struct {
 	ViaAt bool          // through list.At(i)
 	Fn    *ssa.Function // the function containing Call (the handler, or a helper it delegates to)
 	Via   *ssa.Call     // the handler's call of that helper (nil when Call is in the handler itself)
+	Full  bool          // the call hands the whole list to a helper that visits every element of a slice
 }
 
 func (c *Ctx) nodeParamOf(f *ssa.Function, typ string) *ssa.Parameter {
@@ -84,21 +85,93 @@ func (c *Ctx) visitsOfDepth(f *ssa.Function, disp *ssa.Function, node *ssa.Param
 		}
 		cal := calleeOf(call)
 		if cal == disp {
+			// `for _, e := range node.List.Array() { visit(e) }`
+			for _, a := range call.Call.Args {
+				x := a
+				for {
+					if ci, isCI := x.(*ssa.ChangeInterface); isCI {
+						x = ci.X
+						continue
+					}
+					if ct, isCT := x.(*ssa.ChangeType); isCT {
+						x = ct.X
+						continue
+					}
+					break
+				}
+				u, ok := x.(*ssa.UnOp)
+				if !ok {
+					continue
+				}
+				ia, ok := u.X.(*ssa.IndexAddr)
+				if !ok {
+					continue
+				}
+				lc, ok := ia.X.(*ssa.Call)
+				if !ok || calleeOf(lc) == nil || fnBase(calleeOf(lc)) != "Array" || typeName(recvType(calleeOf(lc))) != "NodeList" {
+					continue
+				}
+				if _, all := c.loopVisitsAll(f, call, ia.Index, nil, ssa.Value(lc)); !all {
+					continue
+				}
+				for _, r2 := range plainOrigins.Roots(lc.Call.Args[0]) {
+					if fld, ok := fieldOf(r2); ok {
+						out = append(out, visit{Call: call, Field: fld, ViaAt: true, Fn: f, Full: true})
+					}
+				}
+			}
 			for _, a := range call.Call.Args {
 				for _, rt := range plainOrigins.Roots(a) {
 					if fld, ok := fieldOf(rt); ok && fixedField == "" {
-						out = append(out, visit{call, fld, false, f, nil})
+						out = append(out, visit{Call: call, Field: fld, Fn: f})
 					} else if rt.Kind == "call" && rt.Fn != nil && (fnBase(rt.Fn) == "At" || fnBase(rt.Fn) == "NodeAt") && typeName(recvType(rt.Fn)) == "NodeList" {
 						at := rt.V.(*ssa.Call)
 						for _, r2 := range plainOrigins.Roots(at.Call.Args[0]) {
 							if fld, ok := fieldOf(r2); ok {
-								out = append(out, visit{call, fld, true, f, nil})
+								out = append(out, visit{Call: call, Field: fld, ViaAt: true, Fn: f})
 							}
 						}
 					}
 				}
 			}
 			return
+		}
+		// a helper that visits every element of a slice argument: `visitAll(a, b, c)` / `visitAll(list.Array()...)`
+		if cal != nil && c.inModule(cal) && cal != f && depth < 2 {
+			if k := c.sliceVisitor(cal, disp); k >= 0 && k < len(call.Call.Args) {
+				arg := call.Call.Args[k]
+				if arr := localArrayLiteral(arg); arr != nil {
+					for _, ref := range *arr.Referrers() {
+						ia, ok := ref.(*ssa.IndexAddr)
+						if !ok || ia.X != ssa.Value(arr) {
+							continue
+						}
+						for _, r2 := range *ia.Referrers() {
+							st, ok := r2.(*ssa.Store)
+							if !ok || st.Addr != ssa.Value(ia) {
+								continue
+							}
+							for _, rt := range plainOrigins.Roots(st.Val) {
+								if fld, ok := fieldOf(rt); ok && fixedField == "" {
+									out = append(out, visit{Call: call, Field: fld, Fn: f})
+								}
+							}
+						}
+					}
+					return
+				}
+				for _, rt := range plainOrigins.Roots(arg) {
+					if rt.Kind == "call" && rt.Fn != nil && fnBase(rt.Fn) == "Array" && typeName(recvType(rt.Fn)) == "NodeList" {
+						lc := rt.V.(*ssa.Call)
+						for _, r2 := range plainOrigins.Roots(lc.Call.Args[0]) {
+							if fld, ok := fieldOf(r2); ok {
+								out = append(out, visit{Call: call, Field: fld, ViaAt: true, Fn: f, Full: true})
+							}
+						}
+					}
+				}
+				return
+			}
 		}
 		// delegation to a helper
 		if cal == nil || !c.inModule(cal) || depth >= 2 || len(cal.Blocks) == 0 || cal == f {
@@ -278,7 +351,8 @@ func c10Exhaustive(c *Ctx, d *Dispatcher) {
 	for _, nt := range c.NodeTypes() {
 		name := nt.Obj().Name()
 		h := d.Handlers[name]
-		c.R.Check(rule, "arm:"+name, pos, h != nil, "the field analysis has no arm (with a handler taking the node) for *"+name+": formulas containing it are refused or mis-analysed")
+		_, inline := d.Inline[name]
+		c.R.Check(rule, "arm:"+name, pos, h != nil || inline, "the field analysis has no arm for *"+name+": formulas containing it are refused or mis-analysed")
 	}
 	ok, why := defaultReturnsError(d, 0)
 	c.R.Check(rule, "default-error", pos, ok, "unknown node kinds must be refused with an error: "+why)
@@ -292,6 +366,11 @@ func c10Children(c *Ctx, d *Dispatcher) {
 		name := nt.Obj().Name()
 		h := d.Handlers[name]
 		if h == nil {
+			// the arm does its work inside the dispatcher's type switch (`case *T: return r.visit(n.Child)`)
+			if arm, ok := d.Inline[name]; ok && name != "SelectorExpression" {
+				single, lists := c.exprFields(nt)
+				nChildren += c.inlineArmCoverage(rule, d, arm, name, single, lists)
+			}
 			continue
 		}
 		single, lists := c.exprFields(nt)
@@ -391,7 +470,10 @@ func c10Children(c *Ctx, d *Dispatcher) {
 					}
 				}
 			}
-			okLoop, why := c.countingLoopOver(hit.Fn, at)
+			okLoop, why := true, ""
+			if !hit.Full {
+				okLoop, why = c.countingLoopOver(hit.Fn, at)
+			}
 			c.R.Check(rule, cons, c.P.InstrPos(hit.Call), okLoop, "every element of "+fld+" must be visited: "+why)
 			c.R.Check("C10.child-errors", cons, c.P.InstrPos(hit.Call), c.errChecked(hit.Fn, hit.Call), "the error of visiting an element of "+fld+" must be returned")
 			// guards before the loop may only skip an absent / empty list
@@ -461,6 +543,14 @@ func (c *Ctx) onlyEmptinessGuards(f *ssa.Function, visitCall *ssa.Call, node *ss
 				}
 				if rt.Kind == "call" && rt.Fn != nil && fnBase(rt.Fn) == "Len" {
 					good = true
+				}
+			}
+			// len(list.Array()) of a range loop over the list's elements
+			if lc, isC := (*op).(*ssa.Call); isC && isBuiltinCall(lc, "len") && len(lc.Call.Args) == 1 {
+				for _, rt := range plainOrigins.Roots(lc.Call.Args[0]) {
+					if rt.Kind == "call" && rt.Fn != nil && fnBase(rt.Fn) == "Array" && typeName(recvType(rt.Fn)) == "NodeList" {
+						good = true
+					}
 				}
 			}
 			if _, isPhi := (*op).(*ssa.Phi); isPhi {
@@ -922,14 +1012,27 @@ func (c *Ctx) literalLoopVisit(f *ssa.Function, call *ssa.Call) (ssa.Instruction
 	if arr == nil {
 		return nil, false
 	}
-	at, ok := deref(arr.Type()).Underlying().(*types.Array)
-	if !ok {
-		return nil, false
+	return c.loopVisitsAll(f, call, idx, arr, nil)
+}
+
+// loopVisitsAll: the loop around call runs idx over every element of the literal array arr (or of the slice
+// parameter sp), call lies on every path through the body, and the loop is left only by exhaustion or an error return.
+func (c *Ctx) loopVisitsAll(f *ssa.Function, call *ssa.Call, idx ssa.Value, arr *ssa.Alloc, sp ssa.Value) (ssa.Instruction, bool) {
+	var n int64 = -1
+	if arr != nil {
+		at, ok := deref(arr.Type()).Underlying().(*types.Array)
+		if !ok {
+			return nil, false
+		}
+		n = at.Len()
 	}
-	n := at.Len()
 	// every element 0..n-1 stored once, at a constant index
 	seen := map[int64]int{}
-	for _, ref := range *arr.Referrers() {
+	var refs []ssa.Instruction
+	if arr != nil {
+		refs = *arr.Referrers()
+	}
+	for _, ref := range refs {
 		ia2, ok := ref.(*ssa.IndexAddr)
 		if !ok || ia2.X != ssa.Value(arr) {
 			continue
@@ -962,13 +1065,16 @@ func (c *Ctx) literalLoopVisit(f *ssa.Function, call *ssa.Call) (ssa.Instruction
 		if !ok || bo.Op != token.LSS || bo.X != idx {
 			continue
 		}
-		// bound: the literal's length
+		// bound: the literal's length / the slice parameter's length
 		bound := false
-		if k, isK := constIntArg(bo.Y); isK && k == n {
+		if k, isK := constIntArg(bo.Y); isK && arr != nil && k == n {
 			bound = true
 		}
 		if lc, isC := bo.Y.(*ssa.Call); isC && isBuiltinCall(lc, "len") {
-			if localArrayLiteral(lc.Call.Args[0]) == arr {
+			if arr != nil && localArrayLiteral(lc.Call.Args[0]) == arr {
+				bound = true
+			}
+			if sp != nil && lc.Call.Args[0] == sp {
 				bound = true
 			}
 		}
@@ -1024,4 +1130,136 @@ func (c *Ctx) literalLoopVisit(f *ssa.Function, call *ssa.Call) (ssa.Instruction
 		return hif, true
 	}
 	return nil, false
+}
+
+// sliceVisitor: g hands every element of one of its slice parameters to disp, in order, and stops only at an error
+// (`for _, ch := range children { if err := r.resolve(ch); err != nil { return err } }; return nil`). Returns the
+// index of that parameter, or -1.
+func (c *Ctx) sliceVisitor(g, disp *ssa.Function) int {
+	if g == nil || len(g.Blocks) == 0 {
+		return -1
+	}
+	for _, call := range callsTo(g, disp) {
+		for _, a := range call.Call.Args {
+			for {
+				if ci, isCI := a.(*ssa.ChangeInterface); isCI {
+					a = ci.X
+					continue
+				}
+				if ct, isCT := a.(*ssa.ChangeType); isCT {
+					a = ct.X
+					continue
+				}
+				break
+			}
+			u, ok := a.(*ssa.UnOp)
+			if !ok {
+				continue
+			}
+			ia, ok := u.X.(*ssa.IndexAddr)
+			if !ok {
+				continue
+			}
+			sp, ok := ia.X.(*ssa.Parameter)
+			if !ok {
+				continue
+			}
+			if _, isSl := sp.Type().Underlying().(*types.Slice); !isSl {
+				continue
+			}
+			if _, ok := c.loopVisitsAll(g, call, ia.Index, nil, ssa.Value(sp)); !ok {
+				continue
+			}
+			// after exhaustion the function succeeds: every return outside the loop is a nil error
+			okTail := true
+			instrs(g, func(b *ssa.BasicBlock, i int, in ssa.Instruction) {
+				ret, isR := in.(*ssa.Return)
+				if !isR || len(ret.Results) == 0 {
+					return
+				}
+				last := ret.Results[len(ret.Results)-1]
+				if !isNilConst(last) && !errorPropagatingReturn(ret, len(ret.Results)-1) {
+					okTail = false
+				}
+			})
+			if okTail {
+				return paramIndex(sp)
+			}
+		}
+	}
+	return -1
+}
+
+// inlineArmCoverage: an arm of the dispatcher's type switch that visits its children itself. Every value child must
+// be handed to the dispatcher on every path from the arm to a successful return inside the arm, with the error
+// returned. Returns the number of children examined.
+func (c *Ctx) inlineArmCoverage(rule string, d *Dispatcher, arm TSArm, name string, single, lists []string) int {
+	f := d.Fn
+	inArm := func(b *ssa.BasicBlock) bool { return b == arm.Block || arm.Block.Dominates(b) }
+	vs := c.visitsOfDepth(f, f, d.Param, "", 0)
+	n := 0
+	for _, fld := range single {
+		n++
+		cons := name + "." + fld
+		if name == "CallExpression" && fld == "Expression" {
+			visited := false
+			for _, v := range vs {
+				if v.Field == fld && inArm(v.Call.Block()) {
+					visited = true
+				}
+			}
+			c.R.Check(rule, cons+":not-visited", c.P.Pos(arm.Block.Instrs[0].Pos()), !visited, "the callee position of a call is not a value read and must not be reported as a field")
+			continue
+		}
+		var calls []*ssa.Call
+		for _, v := range vs {
+			if v.Field == fld && !v.ViaAt && inArm(v.Call.Block()) {
+				calls = append(calls, v.Call)
+			}
+		}
+		if len(calls) == 0 {
+			c.R.Check(rule, cons, c.P.Pos(f.Pos()), false, "child "+fld+" of *"+name+" is never handed to the analysis: names read there are not reported")
+			continue
+		}
+		isVisit := func(in ssa.Instruction) bool {
+			for _, cl := range calls {
+				if in == ssa.Instruction(cl) {
+					return true
+				}
+			}
+			return false
+		}
+		missing := ""
+		for _, b := range f.Blocks {
+			if !inArm(b) {
+				continue
+			}
+			ret, ok := b.Instrs[len(b.Instrs)-1].(*ssa.Return)
+			if !ok || errorPropagatingReturn(ret, 0) {
+				continue
+			}
+			// the tail call form `return r.visit(n.Child)` returns the visit's own result
+			direct := false
+			for _, cl := range calls {
+				if len(ret.Results) == 1 && ret.Results[0] == ssa.Value(cl) {
+					direct = true
+				}
+			}
+			if direct {
+				continue
+			}
+			if pathExists(f, arm.Block.Instrs[0], func(x ssa.Instruction) bool { return x == ssa.Instruction(ret) }, isVisit, func(bb *ssa.BasicBlock, k int) bool { return inArm(bb.Succs[k]) }) {
+				missing = c.P.InstrPos(ret)
+			}
+		}
+		c.R.Check(rule, cons, c.P.InstrPos(calls[0]), missing == "", "there is a path to the successful return at "+missing+" that does not visit child "+fld+" of *"+name)
+		for _, cl := range calls {
+			c.R.Check("C10.child-errors", cons, c.P.InstrPos(cl), c.errChecked(f, cl), "the error of visiting "+fld+" must be returned (directly or after a `!= nil` test)")
+		}
+	}
+	for _, fld := range lists {
+		n++
+		c.R.Undecided(rule, name+"."+fld, c.P.Pos(f.Pos()), "list children visited inside the dispatcher's own arm are not analysed")
+	}
+	return n
 }
